@@ -671,9 +671,17 @@ pub fn plan(tier: Tier, focus: &str) -> CrashPlan {
 /// Run the crash enumeration and report the findings of `property` only.
 pub fn check(property: &'static str, tier: Tier) -> i32 {
 	let mut report = Report::new(property, tier, "fault_enumeration");
-	let code = run_into(&mut report, property, tier, if tier == Tier::Quick { 55.0 } else { 1100.0 });
+	let code = run_into(&mut report, property, tier, if tier == Tier::Quick { 45.0 } else { 1000.0 });
 	if code != 0 {
 		return code;
+	}
+	if property == "C02" {
+		// schedule axis: two concurrent committers against a nearly full memtable plus a background
+		// flusher/compactor; process crash after every explored schedule
+		let code = crate::props::sched::run_into(&mut report, "C02", tier, if tier == Tier::Quick { 12.0 } else { 300.0 });
+		if code != 0 {
+			return code;
+		}
 	}
 	report.finish()
 }
